@@ -211,8 +211,11 @@ def run_in_process(argv, cwd, prior_argv=None, run_twice=False):
             cli = Cli()
             if prior_argv is not None:
                 sys.argv = ["json2models"] + list(prior_argv)
-                cli.parse_args(list(prior_argv))
-                cli.run()
+                try:
+                    cli.parse_args(list(prior_argv))
+                    cli.run()
+                except (Exception, SystemExit):  # noqa: BLE001 - the earlier use of the object may have failed midway
+                    pass
             sys.argv = ["json2models"] + list(argv)
             cli.parse_args(list(argv))
             out = cli.run()
@@ -276,7 +279,14 @@ def check_with(case, driver):
             try:
                 if case.get("run_twice"):
                     r.label("run-called-twice")
-                out = run_in_process(argv, d, run_twice=bool(case.get("run_twice")))
+                prior = None
+                if case.get("prior_failed_parse"):
+                    # the same Cli object was used before for a command that failed after its input had been loaded
+                    r.label("cli-object-reused-after-failed-command")
+                    prior = ["-m", "Stale", [a for a in argv_in if not a.startswith("-")][-1]] + ["--merge", "no_such_policy"]
+                    if any(ch in prior[2] for ch in "*?"):
+                        prior = None
+                out = run_in_process(argv, d, prior_argv=prior, run_twice=bool(case.get("run_twice")))
                 rc, stdout = 0, out
             except SystemExit as e:
                 rc, stdout = (e.code or 0), ""
@@ -410,7 +420,8 @@ def cases(draw, tier="quick", formats=("json", "json", "json", "yaml", "ini")):
         o["merge"] = [["percent", 100 * shared / total if (100 * shared) % total else 100 * shared // total]]
         o["dkr"], o["dkf"] = [], []
     return {"specs": specs, "opts": o, "format": fmt, "output": draw(st.sampled_from([False, False, True])),
-            "c_locale": draw(st.booleans()), "run_twice": draw(st.sampled_from([False, False, True]))}
+            "c_locale": draw(st.booleans()), "run_twice": draw(st.sampled_from([False, False, True])),
+            "prior_failed_parse": draw(st.sampled_from([False, False, False, True]))}
 
 
 def valid(case):
